@@ -47,7 +47,7 @@ AF == {"ex", "kn", "bal", "nonce", "s1", "s2", "code", "sui", "dbal", "dto", "gb
 AKeys(a) == { <<f, a>> : f \in AF }
 AcctKeys == UNION { AKeys(a) : a \in Accts }
 ValKeys  == { <<"val", v>> : v \in Vals }
-GlobKeys == { <<"refund", 0>>, <<"logs", 0>>, <<"wq", 0>>, <<"stat", 0>>, <<"rec", 0>> }
+GlobKeys == { <<"refund", 0>>, <<"logs", 0>>, <<"wq", 0>>, <<"stat", 0>>, <<"rec", 0>>, <<"pre", 0>> }
 Keys == AcctKeys \cup ValKeys \cup GlobKeys
 Funded == Accts \cap {1, 2}
 FundedBal == 1000
@@ -59,6 +59,7 @@ InitState == [k \in Keys |->
                  CASE k[1] = "val"  -> NoVal
                    [] k[1] = "wq"   -> <<>>
                    [] k[1] = "dto"  -> {}
+                   [] k[1] = "pre"  -> {}
                    [] k[1] = "stat" -> ZeroStat
                    [] k[1] \in {"ex", "kn"} -> k[2] \in Funded
                    [] k[1] = "sui"  -> FALSE
@@ -173,6 +174,11 @@ Global(k, v, rec) ==
    /\ st' = [st EXCEPT ![k] = v]
    /\ j' = Append(j, Ent(st, {k}, 0))
    /\ AcctDone
+\* AddPreimage journals (and records) only a preimage that is not recorded yet; preimages survive Finalise
+AddPreimage(h) ==
+   IF h \in st[<<"pre", 0>>]
+   THEN /\ Tick([op |-> "AddPreimage", v |-> h]) /\ UNCHANGED <<st, j>> /\ AcctDone
+   ELSE Global(<<"pre", 0>>, st[<<"pre", 0>>] \cup {h}, [op |-> "AddPreimage", v |-> h])
 AddLog       == Global(<<"logs", 0>>, st[<<"logs", 0>>] + 1, [op |-> "AddLog", x |-> 0])
 AddRefund(g) == Global(<<"refund", 0>>, st[<<"refund", 0>>] + g, [op |-> "AddRefund", v |-> g])
 SubRefund(g) == st[<<"refund", 0>>] >= g /\ Global(<<"refund", 0>>, st[<<"refund", 0>>] - g, [op |-> "SubRefund", v |-> g])
@@ -233,7 +239,9 @@ UpdateDelegation(a, v, d) ==
           cur == old.dl[a]
           nv  == [old EXCEPT !.tok = @ + d, !.dl[a] = cur + d]
           odto == st[<<"dto", a>>]
-          ndto == IF cur = 0 THEN odto \cup {v} ELSE IF cur + d = 0 THEN odto \ {v} ELSE odto IN
+          \* stateObject.UpdateDelegationTo(v, delete = (the delegation became empty)): the account's own list decides
+          \* whether anything changes (it may have been wiped by CreateAccount while the validator still lists the delegator)
+          ndto == IF cur + d = 0 THEN odto \ {v} ELSE odto \cup {v} IN
       /\ cur + d >= 0 /\ (cur = 0 => d > 0)
       /\ Tick([op |-> "UpdateDelegation", a |-> a, v |-> v, d |-> d])
       /\ st' = [st EXCEPT ![<<"val", v>>] = nv,
@@ -339,6 +347,12 @@ NextLife ==
                        \/ SetNonce(a, 1) \/ SetState(a, "s1", 1) \/ SetState(a, "s1", 0)
    \/ SnapRev
 
+\* the transaction-wide side tables: logs, refund counter, preimages (recorded once, repeated recordings are no-ops)
+NextSide ==
+   \/ AddLog \/ AddRefund(1) \/ SubRefund(1)
+   \/ \E h \in {1, 2} : AddPreimage(h)
+   \/ SnapRev
+
 \* fourth small alphabet: one storage slot rewritten across transaction boundaries (dirty / pending / original value caches)
 NextStore ==
    \/ \E a \in Accts, v \in {0, 1, 2} : SetState(a, "s1", v)
@@ -353,6 +367,7 @@ NextRich ==
         \/ \E v \in Vals, d \in {-1, 1, 2} : UpdateDelegation(a, v, d)
         \/ Suicide(a) \/ CreateAccount(a)
    \/ AddLog \/ AddRefund(1) \/ SubRefund(1)
+   \/ \E h \in {1, 2} : AddPreimage(h)
    \/ \E v \in Vals :
         \/ \E t \in {1, 2} : CreateValidator(v, t)
         \/ \E d \in {-1, 0, 1}, f \in BOOLEAN : (d # 0 \/ f) /\ UpdateValidator(v, d, f)
@@ -361,7 +376,7 @@ NextRich ==
    \/ \E i \in {1, 2} : RemoveWithdraw(i)
    \/ SnapRev
 
-Next == CASE Rich = "rich" -> NextRich [] Rich = "deleg" -> NextDeleg [] Rich = "deleg3" -> NextDeleg3 [] Rich = "life" -> NextLife [] Rich = "store" -> NextStore [] OTHER -> NextReduced
+Next == CASE Rich = "rich" -> NextRich [] Rich = "deleg" -> NextDeleg [] Rich = "deleg3" -> NextDeleg3 [] Rich = "life" -> NextLife [] Rich = "store" -> NextStore [] Rich = "side" -> NextSide [] OTHER -> NextReduced
 Spec == Init /\ [][Next]_vars
 
 \* ---------------------------------------------------------------- property layer
